@@ -93,12 +93,24 @@ func intersect(a, b map[string]string) map[string]string {
 		if w, ok := b[k]; ok {
 			if v == w {
 				c[k] = v
+			} else if strings.HasPrefix(k, "#") {
+				c[k] = "0"
 			} else {
 				c[k] = "R"
 			}
 		}
 	}
 	return c
+}
+
+// isCountPositive: `<x>.n > 0`
+func isCountPositive(e ast.Expr) bool {
+	b, ok := e.(*ast.BinaryExpr)
+	if !ok || b.Op != token.GTR {
+		return false
+	}
+	lit, ok := b.Y.(*ast.BasicLit)
+	return ok && lit.Value == "0" && strings.HasSuffix(exprString(b.X), ".n")
 }
 
 func exprString(e ast.Expr) string {
@@ -300,6 +312,9 @@ func (w *walker) stmt(s ast.Stmt, held map[string]string) map[string]string {
 		switch op {
 		case "Lock", "RLock":
 			for outer := range held {
+				if strings.HasPrefix(outer, "#") {
+					continue
+				}
 				w.nests = append(w.nests, nesting{w.fn, outer, lock, w.fset.Position(s.Pos()).Line})
 			}
 			if op == "Lock" {
@@ -307,8 +322,10 @@ func (w *walker) stmt(s ast.Stmt, held map[string]string) map[string]string {
 			} else {
 				held[lock] = "R"
 			}
+			held["#"+lock] = fmt.Sprint(w.fset.Position(s.Pos()).Line) // which critical section: the line of its Lock call
 		default:
 			delete(held, lock)
+			delete(held, "#"+lock)
 		}
 		return held
 	}
@@ -624,8 +641,8 @@ func main() {
 	}
 	var sb strings.Builder
 	sb.WriteString("/- GENERATED by /verif/go/extract from the Go sources under /repo; do not edit.\n   Strings are coded as indices into `names` (kept small so that `decide` evaluates the tables in the kernel). -/\nnamespace Ebu.Generated\n\n")
-	sb.WriteString("/-- one access to a shared location: function, location, write?, atomic?, mode in which the location's guard lock is held (0 = not held, 1 = read-locked, 2 = write-locked), source line, through a local alias? -/\n")
-	sb.WriteString("structure AccessFact where\n  fn : Nat\n  loc : Nat\n  write : Bool\n  atomic : Bool\n  guardMode : Nat\n  line : Nat\n  viaAlias : Bool\nderiving DecidableEq, Repr\n\n")
+	sb.WriteString("/-- one access to a shared location: function, location, write?, atomic?, mode in which the location's guard lock is held (0 = not held, 1 = read-locked, 2 = write-locked), source line, through a local alias?, the critical section it sits in (line of the Lock call that took the guard; 0 = none / differs between branches) -/\n")
+	sb.WriteString("structure AccessFact where\n  fn : Nat\n  loc : Nat\n  write : Bool\n  atomic : Bool\n  guardMode : Nat\n  line : Nat\n  viaAlias : Bool\n  csec : Nat\nderiving DecidableEq, Repr\n\n")
 	sb.WriteString("def accessFacts : List AccessFact := [\n")
 	for i, a := range all {
 		g := guard[a.loc]
@@ -640,7 +657,8 @@ func main() {
 		if i == len(all)-1 {
 			sep = ""
 		}
-		sb.WriteString(fmt.Sprintf("  ⟨%d, %d, %v, %v, %d, %d, %v⟩%s  -- %s %s\n", id(a.fn), id(a.loc), a.write, a.atomic, mode, a.line, a.viaAlias, sep, a.fn, a.loc))
+		section, _ := strconv.Atoi(a.held["#"+g])
+		sb.WriteString(fmt.Sprintf("  ⟨%d, %d, %v, %v, %d, %d, %v, %d⟩%s  -- %s %s\n", id(a.fn), id(a.loc), a.write, a.atomic, mode, a.line, a.viaAlias, section, sep, a.fn, a.loc))
 	}
 	sb.WriteString("]\n\n")
 	sb.WriteString("/-- a call of user-supplied code and the locks held at that point: function, kind of callback, locks held, line -/\n")
@@ -650,6 +668,9 @@ func main() {
 		var hs []string
 		var hn []string
 		for k := range c.held {
+			if strings.HasPrefix(k, "#") {
+				continue
+			}
 			hn = append(hn, k)
 		}
 		sort.Strings(hn)
@@ -688,6 +709,12 @@ func main() {
 	}
 	sb.WriteString(fmt.Sprintf("\n/-- register, wouldCreateCycle, hasCycleDFS -/\ndef registerFns : List Nat := [%s]\n", strings.Join(regFns, ", ")))
 	sb.WriteString(fmt.Sprintf("def code_handler_executed : Nat := %d\n", id("handler.executed")))
+	// functions that look a registration up and change the registry in one go
+	var mutFns []string
+	for _, k := range []string{"event_bus.go:Subscribe", "event_bus.go:SubscribeContext", "event_bus.go:Unsubscribe", "event_bus.go:Clear", "event_bus.go:ClearAll"} {
+		mutFns = append(mutFns, fmt.Sprint(id(k)))
+	}
+	sb.WriteString(fmt.Sprintf("\n/-- Subscribe, SubscribeContext, Unsubscribe, Clear, ClearAll -/\ndef registryMutators : List Nat := [%s]\ndef code_shard_handlers : Nat := %d\n", strings.Join(mutFns, ", "), id("shard.handlers")))
 	var rank []string
 	for _, k := range []string{"handler.mu", "bus.storeMu", "memstore.mu", "mat.mu", "statestore.mu", "shard.mu", "upcast.mu", "handler.seqMu", "inflight.mu"} {
 		rank = append(rank, fmt.Sprint(id(k)))
@@ -868,8 +895,46 @@ func emitConsts(repo, out string) error {
 			})
 		}
 	}
+	// inflight.done: how waiters are woken when the count reaches zero; inflight.wait: cond.Wait inside `for c.n > 0`
+	doneWake, waitRechecks := "none", false
+	for _, d := range fe.Decls {
+		fd, ok := d.(*ast.FuncDecl)
+		if !ok || fd.Body == nil || fd.Recv == nil || len(fd.Recv.List) != 1 || !strings.HasSuffix(exprString(fd.Recv.List[0].Type), "inflight") {
+			continue
+		}
+		switch fd.Name.Name {
+		case "done":
+			ast.Inspect(fd.Body, func(n ast.Node) bool {
+				if c, ok := n.(*ast.CallExpr); ok {
+					if sel, ok := c.Fun.(*ast.SelectorExpr); ok && (sel.Sel.Name == "Broadcast" || sel.Sel.Name == "Signal") {
+						if doneWake == "none" {
+							doneWake = sel.Sel.Name
+						} else if doneWake != sel.Sel.Name {
+							doneWake = "mixed"
+						}
+					}
+				}
+				return true
+			})
+		case "wait":
+			ast.Inspect(fd.Body, func(n ast.Node) bool {
+				if f, ok := n.(*ast.ForStmt); ok && isCountPositive(f.Cond) {
+					ast.Inspect(f.Body, func(m ast.Node) bool {
+						if c, ok := m.(*ast.CallExpr); ok {
+							if sel, ok := c.Fun.(*ast.SelectorExpr); ok && sel.Sel.Name == "Wait" {
+								waitRechecks = true
+							}
+						}
+						return true
+					})
+				}
+				return true
+			})
+		}
+	}
 	var sb strings.Builder
 	sb.WriteString("/- GENERATED by /verif/go/extract; do not edit. Constants of the Go source that the models hard-code. -/\nnamespace Ebu.Generated.Consts\n\n")
+	sb.WriteString(fmt.Sprintf("/-- `inflight.done`: the call on the condition variable when the count reaches zero; `inflight.wait`: cond.Wait() sits in `for c.n > 0` -/\ndef inflightDoneWake : String := %q\ndef inflightWaitRechecks : Bool := %v\n\n", doneWake, waitRechecks))
 	sb.WriteString(fmt.Sprintf("/-- getShard: index = fnv.New32a(eventType.String()) & (numShards - 1) -/\ndef shardIndexIsMask : Bool := %v\ndef shardHashIsFnv1a32 : Bool := %v\ndef shardKeyIsTypeString : Bool := %v\n\n", shardMask, shardFnv, shardKeyString))
 	sb.WriteString(fmt.Sprintf("/-- `fmt.Sprintf(%s, …)` in MemoryStore.Append -/\ndef memOffsetFormat : String := %s\ndef memOffsetWidth : Nat := %d\ndef memOffsetZeroPadded : Bool := %v\n\n", strconv.Quote(memFmt), strconv.Quote(memFmt), width, padded))
 	sb.WriteString(fmt.Sprintf("/-- default `batchSize` of Replay when the configured one is <= 0 -/\ndef replayDefaultBatch : Int := %d\n\n", defBatch))
